@@ -25,7 +25,7 @@ import json, os
 import vlib, flow
 
 PROP = "C10"
-CHUNK = 3000   # cases per TLC run (TLC parses the trace single-threaded and keeps it in memory)
+CHUNK = 3500   # cases per TLC run (TLC parses the trace single-threaded and keeps it in memory)
 PAR = 2        # concurrent TLC runs
 
 
@@ -144,10 +144,14 @@ def run():
         "rule": "programs = record graphs built from script text and converted (togo / _method Echo / Snoopy.EchoWeather); "
                 "disagreements_checked = recorded conversion outcomes compared by TLC with Fill / MatchStruct "
                 "(a graph with a shared record is converted 40 times, every distinct outcome is compared); generators: "
-                "f1 one field x every palette value of its type for 19 registered types (harness family + demo structs), "
+                "f1 one field x every palette value of its type for 21 registered types (harness family + demo structs), "
                 "w1/u1 one wrong-kind value / one undeclared key at every field, w2/u2/n1 the same and valid children one "
-                "level down at 29 reference positions, s2/s3 every pair / sampled triples of reference positions sharing one "
-                "record, s4 diamonds, c1 cycles, r seeded random graphs of depth <= 3 with shared records",
+                "level down at 33 reference positions, s2/s3 every pair / sampled triples of reference positions sharing one "
+                "record, s4 diamonds, c1 cycles, r seeded random graphs of depth <= 3 with shared records, h1 histories on ONE record "
+                "object (a conversion that fails through togo or with the record as receiver of a Go method, further "
+                "conversions, the repair of the field with hset, conversions again; each step must give what a fresh record "
+                "with the same contents gives); zvtwin / nestouter / nestinner are registered under two names and travel nested "
+                "through pointer and interface fields: a record that went in under the first name must come back under it",
     }
     return flow.finish(out, "translation_validation", cov, [
         "struct family of harness/cmd/zv/gointerop_types.go and the demo structs of zygo/demo_go_structs.go; the declarations "
